@@ -31,6 +31,9 @@ type Options struct {
 	Sweep    bool
 	Solver   string
 	NoCache  bool
+	UpdateBaseline bool
+	Seed     int
+	NoReplay bool
 }
 
 func main() {
@@ -49,6 +52,9 @@ func main() {
 	flag.BoolVar(&o.Sweep, "sweep", false, "zero-annotation safety sweep over all functions")
 	flag.StringVar(&o.Solver, "solver", "", "use only this solver")
 	flag.BoolVar(&o.NoCache, "nocache", false, "do not reuse cached solver answers")
+	flag.BoolVar(&o.UpdateBaseline, "update-baseline", false, "record discharged obligations as the baseline")
+	flag.IntVar(&o.Seed, "seed", 0, "seed (unused by proofs; recorded in evidence)")
+	flag.BoolVar(&o.NoReplay, "noreplay", false, "do not replay counterexamples")
 	flag.Parse()
 
 	start := time.Now()
